@@ -85,6 +85,20 @@ def run(ctx, col: Collector):
             col.unk('C04-direction', cons, 'how render_reference chooses between the clause generator and the ALTER TABLE generator is not recognised', node=fi.node, file=fi.file)
     guarded(col, 'C04-direction', 'direction', direction)
 
+    # ---------------------------------------------------------------- C04-form
+    def forms():
+        from .forms import form_obligation
+        keep = {'get_full_name_for_sql', 'comment_to_sql', 'escape_braces', 'col_names'}
+        CON = r'(\{c\}|◦|CONSTRAINT "◦" )?'
+        ACT = r'( ON UPDATE ◦)?( ON DELETE ◦)?'
+        guarded(col, 'C04-form', 'generate_inline_sql', lambda: form_obligation(
+            ctx, col, 'C04-form', REFMOD, 'generate_inline_sql', r'(◦ ?)?' + CON + r'FOREIGN KEY \(◦\) REFERENCES ◦ \(◦\)' + ACT,
+            '[CONSTRAINT "name"] FOREIGN KEY (cols) REFERENCES table (cols) [ON UPDATE a] [ON DELETE a]', keep=keep))
+        guarded(col, 'C04-form', 'generate_not_inline_sql', lambda: form_obligation(
+            ctx, col, 'C04-form', REFMOD, 'generate_not_inline_sql', r'(◦ ?)?ALTER TABLE ◦ ADD ' + CON + r'FOREIGN KEY \(◦\) REFERENCES ◦ \(◦\)' + ACT + r' ?;',
+            'ALTER TABLE t ADD [CONSTRAINT "name"] FOREIGN KEY (cols) REFERENCES table (cols) [ON UPDATE a] [ON DELETE a];', keep=keep))
+    forms()
+
     # ---------------------------------------------------------------- C04-sibling
     guarded(col, 'C04-sibling', 'key-holder', lambda: key_holder_dispatch(ctx, col, 'C04-sibling'))
 
